@@ -54,11 +54,13 @@ ENVS = {
            dict(expr="sgn"), dict(o_name="sec", sync=True, expr="as_s"), dict(o_name="sync", expr="sgn")],
     "async": [{}, dict(o_name="sec", sync=True, expr="rst"), dict(o_name="sec", sync=True, expr="rst_or"),
               dict(o_name="sync", expr="not"), dict(o_name="fast", sync=True, expr="bit"), dict(o_name="sec", sync=True),
-              dict(o_name="sync"), dict(o_name="o", sync=True, expr="not"), dict(o_name="sync", expr="bit")],
+              dict(o_name="sync"), dict(o_name="o", sync=True, expr="not"), dict(o_name="sync", expr="bit"),
+              # attributes of the user's output signal (reset-less, an initial value) are the user's business: the contract is the same
+              dict(o_rl=True), dict(o_name="sec", sync=True, o_rl=True, expr="not")],
     "pulse": [{}, dict(i_name="slow", o_name="fast", sync=True), dict(i_name="sync", o_name="fast"),
               dict(i_name="slow", o_name="sync"), dict(i_name="i", o_name="o", sync=True)],
 }
-ENVS["reset"] = ENVS["async"]
+ENVS["reset"] = [e for e in ENVS["async"] if "o_rl" not in e]      # (ResetSynchronizer has no output signal of the user's)
 
 
 def _envs(prim, i0):
